@@ -320,34 +320,42 @@ impl<K, V, A: Allocator> CaoHashMap<K, V, A> {
         Q: Eq + ?Sized,
     {
         let i = self.find_ind(hash, key);
-        if self.hashes()[i] != 0 {
-            if std::mem::needs_drop::<K>() {
-                std::ptr::drop_in_place(self.keys.as_ptr().add(i));
-            }
-
-            let result = std::ptr::read(self.values.as_ptr().add(i));
-            self.hashes_mut()[i] = 0;
-
-            // if the consecutive buckets are not empty, move them back, so lookups dont fail
-            // and they aren't in their optimal position
-            //
-            let mut i = i; // track the last empty slot
-            let mut j = (i + 1) % self.capacity();
-            while self.hashes()[j] != 0 {
-                // if the jth item is not in its optimal bucket, then move it back to the empty
-                // slot
-                if (self.hashes()[j] % self.capacity() as u64) != j as u64 {
-                    self.hashes_mut()[i] = self.hashes()[j];
-                    std::ptr::swap(self.keys.as_ptr().add(i), self.keys.as_ptr().add(j));
-                    std::ptr::swap(self.values.as_ptr().add(i), self.values.as_ptr().add(j));
-                    i = j;
-                }
-                j = (j + 1) % self.capacity();
-            }
-
-            return Some(result);
+        if self.hashes()[i] == 0 {
+            return None;
         }
-        None
+        if std::mem::needs_drop::<K>() {
+            std::ptr::drop_in_place(self.keys.as_ptr().add(i));
+        }
+        let result = std::ptr::read(self.values.as_ptr().add(i));
+        self.hashes_mut()[i] = 0;
+        self.count -= 1;
+
+        // backward shift deletion: entries that probed past the removed bucket are moved back,
+        // so that no probe chain is cut by the new hole
+        let cap = self.capacity;
+        let mut hole = i;
+        let mut j = (i + 1) % cap;
+        loop {
+            let hj = self.hashes()[j];
+            if hj == 0 {
+                break;
+            }
+            // the bucket `find_ind` starts probing from
+            let home = (hj.wrapping_mul(2654435769) as usize) % cap;
+            // the hole lies on the probe path of the jth entry iff it is at least as far from j
+            // as the entry's home bucket is
+            if (j + cap - home) % cap >= (j + cap - hole) % cap {
+                self.hashes_mut()[hole] = hj;
+                let key = std::ptr::read(self.keys.as_ptr().add(j));
+                std::ptr::write(self.keys.as_ptr().add(hole), key);
+                let value = std::ptr::read(self.values.as_ptr().add(j));
+                std::ptr::write(self.values.as_ptr().add(hole), value);
+                self.hashes_mut()[j] = 0;
+                hole = j;
+            }
+            j = (j + 1) % cap;
+        }
+        Some(result)
     }
 
     pub fn contains<Q>(&self, key: &Q) -> bool
